@@ -67,10 +67,13 @@ package pcache
 
 // The advertisement time of a fetched record as the merge rule uses it: the epoch when absent or unparsable.
 //@ spec func effTime(v int) int = ite(parsedTime(str(time.RFC3339), v) == 0, dateTime(1970, 1, 1, 0, 0, 0, 0, time.UTC), parsedTime(str(time.RFC3339), v))
+// Invariant of every published snapshot: an entry is nil (a provider known to be absent) or carries its
+// provider record. It is CHECKED at every Store of this package and ASSUMED of what Load hands back (the
+// pointer is written by this package only).
+//@ spec func mapOK(m val) bool = all(k, has(m, k) && m[k] != nil ==> m[k].provider != nil)
 //@ spec func pcOK(pc val) bool = pc != nil && pc.write != nil && pc.writeLock != nil && !closed(pc.writeLock) && all(k, has(pc.write, k) ==> pc.write[k] != nil) && forall(j, 0, len(pc.sources), pc.sources[j] != nil)
 
-// Sources are interfaces implemented outside this package. ASSUMED: a successful
-// FetchAll returns no nil record (a nil element would be dereferenced).
+// Sources are interfaces implemented outside this package.
 // (a source may hand back a list with nil entries - the HTTP source does for a JSON list containing null;
 // nothing is assumed about the entries)
 //@ iface ProviderSource.FetchAll
@@ -131,6 +134,11 @@ package pcache
 //@   loop 5: invariant all(k, visitedkey(pc.write, k) ==> has(m, k) && m[k] == ite(has(updates, k), updates[k], read.m[k]))
 //@   at call Store#2: assert all(k, has(pc.write, k) ==> has(arg1.m, k) && arg1.m[k] == ite(has(updates, k), updates[k], read.m[k]))
 //@   at call Store#1: assert arg1.u == updates && arg1.m == read.m
+// snapshot invariant (see mapOK): checked at both publications
+//@   at call Store: assert mapOK(arg1.m) && mapOK(arg1.u)
+//@   loop 3: invariant mapOK(updates) && mapOK(read.u) && mapOK(read.m)
+//@   loop 4: invariant mapOK(updates) && mapOK(read.m)
+//@   loop 5: invariant mapOK(updates) && mapOK(read.m) && mapOK(m)
 
 // fetchMissing (C07): lock balance and guarded access as for Refresh; (C06):
 // a provider that already has an entry in the write map (including a negative
@@ -165,8 +173,12 @@ package pcache
 //@   at call loadReadOnly: assert held(pc.writeLock)
 //@   at call loadReadOnly: after ghost snapM := result.m
 //@   at call loadReadOnly: after ghost snapU := result.u
+//@   at call Store: assert mapOK(arg1.m) && mapOK(arg1.u)
+//@   ensures result0 != nil ==> result0.provider != nil
 //@   at call Store#1: assert arg1.m == snapM
 //@   at call Store#1: assert all(k, has(snapU, k) && k != str(pid) ==> has(arg1.u, k) && arg1.u[k] == snapU[k])
+//@   loop 2: invariant mapOK(updates) && mapOK(read.u) && mapOK(read.m)
+//@   loop 3: invariant mapOK(updates) && mapOK(read.m) && mapOK(m)
 //@   loop 2: invariant read.u == snapU && read.m == snapM && all(k, visitedkey(read.u, k) ==> has(updates, k) && updates[k] == read.u[k])
 //@   at call Store#2: assert all(k, has(pc.write, k) && !has(updates, k) ==> arg1.m[k] == snapM[k])
 //@   at call Store#2: assert has(arg1.m, pid) && arg1.m[pid] == rpinfo
@@ -183,7 +195,7 @@ package pcache
 //@   modifies mapof(pc.write), pc.read, objects(cacheInfo)
 //@   ensures pcOK(pc) && !held(pc.writeLock)
 //@   ghost hit := false
-//@   ensures-assumed result0 != nil ==> result0.provider != nil
+//@   ensures result0 != nil ==> result0.provider != nil
 //@   ensures-local count("atomic.load:read") == 1 || count("call:loadReadOnly") == 1
 
 //@ func (*ProviderCache).loadReadOnly
@@ -191,6 +203,7 @@ package pcache
 //@   pure
 //@   requires pc != nil
 //@   ensures-local count("atomic.load:read") == 1
+//@   ensures-assumed mapOK(result.m) && mapOK(result.u)
 
 //@ func (*ProviderCache).Get
 //@   property C07
